@@ -214,7 +214,9 @@ def _render(line, fmt, rng):
                         'attr': '%s' % arg}[kind]
                 out += '<span %s>' % attr
             elif fmt == 'sami':
-                if kind in 'ibu':
+                if kind == 'attr':
+                    out += '<span style="%s">' % arg
+                elif kind in 'ibu':
                     out += '<%s>' % (kind.upper() if rng.random() < 0.5 else kind)
                 else:
                     out += '<span style="color:%s;">' % arg
@@ -225,5 +227,5 @@ def _render(line, fmt, rng):
             elif fmt == 'dfxp':
                 out += '</span>'
             elif fmt == 'sami':
-                out += '</%s>' % kind if kind in 'ibu' else '</span>'
+                out += '</%s>' % kind if kind in ('i', 'b', 'u') else '</span>'
     return out
